@@ -115,3 +115,64 @@ func lemmaNoSuppressionCountsAll(recvNow, sentAt, inflight int64, fails int, rec
 	f, _, _ := linktestFailureStep(false, recvNow, sentAt, inflight, fails, recvAtLastFail)
 	return f, linktestDisconnectRecheck(false, inflight, recvNow, sentAt)
 }
+
+// ====================================================================================================
+// C08 / C07: HSMS-SS responder procedures (DESIGN.md Appendix F.4). zzCalls counts the operations a call performed,
+// zzArg/zzRet read the arguments / result of the last such operation, zzSeq orders two operations.
+// ====================================================================================================
+
+func zzCalls(name string) int           { panic("spec only") }
+func zzSeq(name string) int             { panic("spec only") }
+func zzArg[T any](name string, i int) T { panic("spec only") }
+func zzRet[T any](name string) T        { panic("spec only") }
+
+// specHdr lays the ten HSMS header bytes out in their SEMI E37 §8.2 positions.
+func specHdr(sid uint16, b2, b3, ptype, stype byte, sys [4]byte) [10]byte {
+	return [10]byte{byte(sid >> 8), byte(sid), b2, b3, ptype, stype, sys[0], sys[1], sys[2], sys[3]}
+}
+
+// specSentHeader: the header of the control message handed to the runtime's async sender by the last SendAsync.
+func specSentHeader() [10]byte {
+	m := zzArg[hsms.Message]("hsms.(TransportRuntime).SendAsync", 1)
+	return m.HeaderBytes()
+}
+
+func specSentIsControl() bool {
+	m := zzArg[hsms.Message]("hsms.(TransportRuntime).SendAsync", 1)
+	_, ok := m.(*hsms.ControlMessage)
+	return ok
+}
+
+func specSys(frame []byte) [4]byte { return [4]byte{frame[6], frame[7], frame[8], frame[9]} }
+func specSid(frame []byte) uint16  { return uint16(frame[0])<<8 | uint16(frame[1]) }
+
+//@ func (*transport).sendReject
+//@ nosafety nil-deref nil-iface
+//@ requires t != nil && len(frame) >= 10
+//@ emits hsms.(TransportRuntime).SendAsync, hsms.(TransportRuntime).TCPDown, hsms.(TransportRuntime).DeliverOwnedFrame
+//@ ensures [once]   zzCalls("hsms.(TransportRuntime).SendAsync") == 1 && zzCalls("hsms.(TransportRuntime).TCPDown") == 0 && zzCalls("hsms.(TransportRuntime).DeliverOwnedFrame") == 0
+//@ ensures [ptype]  pType != 0 ==> specSentIsControl() && specSentHeader() == specHdr(specSid(frame), pType, 2, 0, 7, specSys(frame))
+//@ ensures [stype]  pType == 0 ==> specSentIsControl() && specSentHeader() == specHdr(specSid(frame), sType, 1, 0, 7, specSys(frame))
+
+//@ func (*transport).sendRejectNotSelected
+//@ nosafety nil-deref nil-iface
+//@ requires t != nil && len(frame) >= 10
+//@ emits hsms.(TransportRuntime).SendAsync, hsms.(TransportRuntime).TCPDown, hsms.(TransportRuntime).DeliverOwnedFrame
+//@ ensures [once]   zzCalls("hsms.(TransportRuntime).SendAsync") == 1 && zzCalls("hsms.(TransportRuntime).TCPDown") == 0 && zzCalls("hsms.(TransportRuntime).DeliverOwnedFrame") == 0
+//@ ensures [reject] specSentIsControl() && specSentHeader() == specHdr(specSid(frame), 0, 4, 0, 7, specSys(frame))
+
+//@ func (*transport).sendRejectTransactionNotOpen
+//@ nosafety nil-deref nil-iface
+//@ requires t != nil && len(frame) >= 10
+//@ emits hsms.(TransportRuntime).SendAsync, hsms.(TransportRuntime).TCPDown, hsms.(TransportRuntime).DeliverOwnedFrame
+//@ ensures [once]   zzCalls("hsms.(TransportRuntime).SendAsync") == 1 && zzCalls("hsms.(TransportRuntime).TCPDown") == 0 && zzCalls("hsms.(TransportRuntime).DeliverOwnedFrame") == 0
+//@ ensures [reject] specSentIsControl() && specSentHeader() == specHdr(specSid(frame), frame[5], 3, 0, 7, specSys(frame))
+
+//@ func (*transport).handleSeparateReq
+//@ nosafety nil-deref nil-iface
+//@ requires t != nil
+//@ emits hsms.(TransportRuntime).SendAsync, hsms.(TransportRuntime).TCPDown, hsms.(TransportRuntime).DeliverOwnedFrame, hsms.(TransportRuntime).State
+//@ ensures [quiet]    zzCalls("hsms.(TransportRuntime).SendAsync") == 0 && zzCalls("hsms.(TransportRuntime).DeliverOwnedFrame") == 0
+//@ ensures [selected] zzRet[hsms.ConnState]("hsms.(TransportRuntime).State") == hsms.SelectedState ==> !result && zzCalls("hsms.(TransportRuntime).TCPDown") == 1
+//@ ensures [ignored]  zzRet[hsms.ConnState]("hsms.(TransportRuntime).State") != hsms.SelectedState ==> result && zzCalls("hsms.(TransportRuntime).TCPDown") == 0
+//@ ensures [one]      zzCalls("hsms.(TransportRuntime).State") == 1
